@@ -61,6 +61,15 @@ func (x *Exec) CheckFileSel(what string, sel map[string]bool) (*Accounting, *Fai
 	}
 	acc := &Accounting{State: st, Image: im}
 	if len(st.Problems) > 0 {
+		// problems that mean "this is not a well-formed version-2 file" are format problems; the rest is accounting
+		for _, p := range st.Problems {
+			switch p.Class {
+			case "dup-free", "free-order", "free-range", "bad-type", "bounds", "bad-id", "short-file", "key-order":
+				if f := fail("format", "malformed file: %s", p); f != nil {
+					return acc, f
+				}
+			}
+		}
 		if f := fail("accounting", "%d problem(s), first: %s", len(st.Problems), st.Problems[0]); f != nil {
 			return acc, f
 		}
